@@ -101,6 +101,9 @@ def frame_bound(chk, prog):
            fn.where(), key="vcp-reads-frame-buffer")
 
 
+MAX_CUTS = 51          # (1202 halfwords of frame body - 11 of header) // 23 per cut: the property's own upper bound
+
+
 def collected_form(chk, prog, fn):
     """the decoder without an explicit loop: header, then `number_of_elevation_cuts` blocks read in order by a collected
     iterator chain over 0..n, any failure returned as the error"""
@@ -188,8 +191,21 @@ def run(chk, tier):
                         chk.ob("R-LIN", FN + "#cuts", okk, "exactly one push per iteration, of the block decoded in this iteration (found %d)" % len(found), lp["where"], key="push")
                 c13.FN = c13.M + "decode_clutter_filter_map"
                 # the vector pushed into is the one handed to Message::new together with the header
-                res = [leaf for conds, leaf in loops.paths(loops.entry_env(prog, fn, lp["head"])[1]) if isinstance(leaf, tuple) and leaf[0] != "@join"]
-                chk.ob("R-ERR", FN, all(x[0] == "adt" and x[2] == "Err" for x in res), "before the loop the only early return is the header's decode error", fn.where(), key="pre-loop-returns")
+                pre = [(conds, leaf) for conds, leaf in loops.paths(loops.entry_env(prog, fn, lp["head"])[1]) if isinstance(leaf, tuple) and leaf[0] != "@join"]
+                chk.ob("R-ERR", FN, all(x[0] == "adt" and x[2] == "Err" for _c, x in pre), "before the loop the only early return is the header's decode error", fn.where(), key="pre-loop-returns")
+                # every count 0..=51 is read: an early return is the header's own failure, or a guard that only turns away counts
+                # no frame can hold (52 and more)
+                cnt = fld(("vfld", hdr, "Ok", "0"), "number_of_elevation_cuts")
+                bad = []
+                for conds, leaf in pre:
+                    if any(len(c) == 3 and c[0] == ("discr", hdr) and c[2] == ((1, 1),) for c in conds):
+                        continue
+                    turned = [c[2] for c in conds if len(c) == 3 and loops.strip_widen(c[0]) == cnt]
+                    if turned and all(lo > MAX_CUTS for rs in turned for lo, hi in rs):
+                        continue
+                    bad.append("; ".join("%s in %s" % (show(c[0])[:60], c[2]) if len(c) == 3 else "%s is %s" % (show(c[0])[:60], c[1]) for c in conds))
+                chk.ob("R-ERR", FN, not bad, "no message with 0..=%d cuts is turned away before its cuts are read" % MAX_CUTS if not bad else
+                       "the decoder returns early, without reading the cuts, under: %s" % " | ".join(bad)[:300], fn.where(), key="no-early-reject")
 
     # ---- the decoder is run on the frame, not on the stream: a cut count that does not fit the 2404-byte frame body must
     #      run out of bytes (an error), it must not be satisfied from the messages that follow
